@@ -6,10 +6,10 @@ cd $W || exit 2
 PYX=$(git diff --name-only | grep -E '\.(pyx|h)$' | head -1)
 /venv/bin/python _seed/demo.py > /tmp/demo_with.log 2>&1; RC1=$?
 cp -r _seed /tmp/_seed_$ID
-git stash -q
+git diff > /tmp/_seed_$ID/_applied.diff; git apply -R /tmp/_seed_$ID/_applied.diff
 [ -n "$PYX" ] && { /venv/bin/python setup.py build_ext --inplace -j8 >/dev/null 2>&1; rm -rf build; }
 /venv/bin/python _seed/demo.py > /tmp/demo_without.log 2>&1; RC2=$?
-git stash pop -q
+git apply /tmp/_seed_$ID/_applied.diff
 [ -n "$PYX" ] && { /venv/bin/python setup.py build_ext --inplace -j8 >/dev/null 2>&1; rm -rf build; }
 echo "$ID demo with change rc=$RC1, without rc=$RC2"
 mkdir -p /verif/seeded/$NAME
